@@ -433,6 +433,19 @@ def gen_validate_cases(rng, tier):
                     doc, fault = d2, f.__name__[2:]
                     break
         out.append({'doc': doc, 'fault': fault, 'cli': (i % 8 == 0)})
+    # every keyword, in some letter case, as a mnemonic and as a macro name
+    base = None
+    for kw in KEYWORDS:
+        for which in ('instructions', 'macros'):
+            for _ in range(20):
+                base = gen_doc(rng)
+                if base.get(which):
+                    break
+            if not base.get(which):
+                continue
+            k = rng.choice(list(base[which]))
+            base[which] = _rename_key(base[which], k, _case_variant(rng, kw))
+            out.append({'doc': base, 'fault': f'{which[:-1]}_named_{kw.lower()}' if tier != 'quick' else f'keyword_as_{which[:-1]}', 'cli': False})
     # every catalogue entry at least twice per run
     for f in FAULTS:
         got = 0
